@@ -100,17 +100,19 @@ Definition ec_priv_norm (cs : nat) (s : schema) (m : msg) : option msg :=
   | _ => None
   end.
 
-Definition rsa_pub_norm (s : schema) (m : msg) : option msg :=
-  match map_bytes s m 3 (fun b => Some (strip_zeros b)) with
+(* signature/rsassa*: the modulus goes through big.Int (leading zeros dropped);
+   jwt/jwtrsassa*: the modulus bytes are kept as given (strip_n = false) *)
+Definition rsa_pub_norm (strip_n : bool) (s : schema) (m : msg) : option msg :=
+  match map_bytes s m 3 (fun b => Some (if strip_n then strip_zeros b else b)) with
   | Some m1 => map_bytes s m1 4 (fun b => Some (strip_zeros b))
   | None => None
   end.
 (* signature.AdjustEncodingLengths after big.Int.Bytes(): d to |n|, dp and crt to |p|, dq to |q| *)
-Definition rsa_priv_norm (s : schema) (m : msg) : option msg :=
+Definition rsa_priv_norm (strip_n : bool) (s : schema) (m : msg) : option msg :=
   match get_field s m 2 with
   | Some (TMsg ps, VMsg pm) =>
       let pm0 := match pm with Some x => x | None => default_msg ps end in
-      match rsa_pub_norm ps pm0 with
+      match rsa_pub_norm strip_n ps pm0 with
       | Some pm' =>
           match get_bytes ps pm' 3, get_bytes s m 4, get_bytes s m 5 with
           | Some n, Some p, Some q =>
@@ -183,7 +185,7 @@ Definition on_pub (s : schema) (m : msg) : option (schema * msg) := get_sub s m 
 
 Inductive norm_kind :=
 | NKNone | NKEcdsaPub | NKEcdsaPriv | NKJwtEcdsaPub | NKJwtEcdsaPriv
-| NKEciesPub | NKEciesPriv | NKRsaPub | NKRsaPriv.
+| NKEciesPub | NKEciesPriv | NKRsaPub | NKRsaPriv | NKJwtRsaPub | NKJwtRsaPriv.
 
 Definition normalise (k : norm_kind) (s : schema) (m : msg) : option msg :=
   match k with
@@ -216,8 +218,10 @@ Definition normalise (k : norm_kind) (s : schema) (m : msg) : option msg :=
           end
       | None => None
       end
-  | NKRsaPub => rsa_pub_norm s m
-  | NKRsaPriv => rsa_priv_norm s m
+  | NKRsaPub => rsa_pub_norm true s m
+  | NKRsaPriv => rsa_priv_norm true s m
+  | NKJwtRsaPub => rsa_pub_norm false s m
+  | NKJwtRsaPriv => rsa_priv_norm false s m
   end.
 
 (* ------------------------------------------------------------------ *)
@@ -239,13 +243,32 @@ Record gkey := mkGkey { gk_url : bytes; gk_mat : N; gk_variant : N; gk_id : N; g
 (* how a type treats the output prefix *)
 Inductive prefix_kind :=
 | PTables (to_proto from_proto : list (N * N))   (* variant <-> OutputPrefixType switch maps *)
+| PJwt (custom : N) (to_proto from_proto from_proto_kid : list (N * N)) (kid_path : list N)
+      (* JWT: kidStrategyFromOutputPrefixType(prefix, hasCustomKID); a custom kid
+         (the sub-message at kid_path) is only allowed with the CustomKID strategy *)
 | PIgnored.                                      (* streaming AEAD: the parser never looks at it, the serializer emits RAW / id 0 *)
+
+(* is the sub-message at the path (field numbers) present? *)
+Fixpoint has_path (s : schema) (m : msg) (path : list N) : bool :=
+  match path with
+  | [] => true
+  | a :: rest =>
+      match get_field s m a with
+      | Some (TMsg s', VMsg (Some m')) => has_path s' m' rest
+      | _ => false
+      end
+  end.
 
 Record ktype := mkKtype { kt_schema : schema; kt_prefix : prefix_kind; kt_norm : norm_kind }.
 
 Definition serialize_key (T : ktype) (k : gkey) : option kser :=
   match kt_prefix T with
   | PTables to_proto _ =>
+      match lookup to_proto (gk_variant k) with
+      | Some p => new_key_serialization (gk_url k) (encode (kt_schema T) (gk_fields k)) (gk_mat k) p (gk_id k)
+      | None => None
+      end
+  | PJwt _ to_proto _ _ _ =>
       match lookup to_proto (gk_variant k) with
       | Some p => new_key_serialization (gk_url k) (encode (kt_schema T) (gk_fields k)) (gk_mat k) p (gk_id k)
       | None => None
@@ -262,6 +285,14 @@ Definition parse_key (T : ktype) (s : kser) : option gkey :=
           | PTables _ from_proto =>
               match lookup from_proto (ks_prefix s) with
               | Some v => Some (mkGkey (ks_url s) (ks_mat s) v (ks_id s) m')
+              | None => None
+              end
+          | PJwt custom _ from_proto from_proto_kid path =>
+              let kid := has_path (kt_schema T) m' path in
+              match lookup (if kid then from_proto_kid else from_proto) (ks_prefix s) with
+              | Some v =>
+                  if kid && negb (v =? custom) then None
+                  else Some (mkGkey (ks_url s) (ks_mat s) v (ks_id s) m')
               | None => None
               end
           | PIgnored => Some (mkGkey (ks_url s) (ks_mat s) 0 0 m')
@@ -281,6 +312,11 @@ Definition serialize_params (T : ktype) (p : gparams) : option ktemplate :=
       | Some pr => Some (mkKtemplate (gp_url p) (encode (kt_schema T) (gp_fields p)) pr)
       | None => None
       end
+  | PJwt _ to_proto _ _ _ =>
+      match lookup to_proto (gp_variant p) with
+      | Some pr => Some (mkKtemplate (gp_url p) (encode (kt_schema T) (gp_fields p)) pr)
+      | None => None
+      end
   | PIgnored => Some (mkKtemplate (gp_url p) (encode (kt_schema T) (gp_fields p)) prefix_raw)
   end.
 Definition parse_params (T : ktype) (t : ktemplate) : option gparams :=
@@ -292,16 +328,13 @@ Definition parse_params (T : ktype) (t : ktemplate) : option gparams :=
           | Some v => Some (mkGparams (tp_url t) v m)
           | None => None
           end
+      | PJwt _ _ from_proto _ _ =>
+          match lookup from_proto (tp_prefix t) with
+          | Some v => Some (mkGparams (tp_url t) v m)
+          | None => None
+          end
       | PIgnored => if tp_prefix t =? prefix_raw then Some (mkGparams (tp_url t) 0 m) else None
       end
-  | None => None
-  end.
-
-(* type URL -> prefix treatment (SerialTables.prefix_maps, kind 1 = ignored) *)
-Definition prefix_kind_of (url : bytes) : option prefix_kind :=
-  match lookup_bytes prefix_maps url with
-  | Some (kind, (to_proto, from_proto)) =>
-      if kind =? 1 then Some PIgnored else Some (PTables to_proto from_proto)
   | None => None
   end.
 
@@ -545,10 +578,32 @@ Definition norm_table : list (bytes * norm_kind) := Eval vm_compute in
     (tink_url "EciesAeadHkdfPublicKey", NKEciesPub); (tink_url "EciesAeadHkdfPrivateKey", NKEciesPriv);
     (tink_url "RsaSsaPkcs1PublicKey", NKRsaPub); (tink_url "RsaSsaPkcs1PrivateKey", NKRsaPriv);
     (tink_url "RsaSsaPssPublicKey", NKRsaPub); (tink_url "RsaSsaPssPrivateKey", NKRsaPriv);
-    (tink_url "JwtRsaSsaPkcs1PublicKey", NKRsaPub); (tink_url "JwtRsaSsaPkcs1PrivateKey", NKRsaPriv);
-    (tink_url "JwtRsaSsaPssPublicKey", NKRsaPub); (tink_url "JwtRsaSsaPssPrivateKey", NKRsaPriv) ].
+    (tink_url "JwtRsaSsaPkcs1PublicKey", NKJwtRsaPub); (tink_url "JwtRsaSsaPkcs1PrivateKey", NKJwtRsaPriv);
+    (tink_url "JwtRsaSsaPssPublicKey", NKJwtRsaPub); (tink_url "JwtRsaSsaPssPrivateKey", NKJwtRsaPriv) ].
 Definition norm_kind_of (url : bytes) : norm_kind :=
   match lookup_bytes norm_table url with Some k => k | None => NKNone end.
+
+(* where the custom kid sits in the JWT key messages (proto/jwt_*.proto) *)
+Definition jwt_kid_paths : list (bytes * list N) := Eval vm_compute in
+  [ (tink_url "JwtEcdsaPublicKey", [5]); (tink_url "JwtEcdsaPrivateKey", [2; 5]);
+    (tink_url "JwtRsaSsaPkcs1PublicKey", [5]); (tink_url "JwtRsaSsaPkcs1PrivateKey", [2; 5]);
+    (tink_url "JwtRsaSsaPssPublicKey", [5]); (tink_url "JwtRsaSsaPssPrivateKey", [2; 5]);
+    (tink_url "JwtMlDsaPublicKey", [4]); (tink_url "JwtMlDsaPrivateKey", [3; 4]);
+    (tink_url "JwtHmacKey", [4]) ].
+
+(* type URL -> prefix treatment (SerialTables.prefix_maps) *)
+Definition prefix_kind_of (url : bytes) : option prefix_kind :=
+  match lookup_bytes prefix_maps url with
+  | Some (kind, (custom, (to_proto, (from_proto, from_proto_kid)))) =>
+      if kind =? 1 then Some PIgnored
+      else if kind =? 2 then
+        match lookup_bytes jwt_kid_paths url with
+        | Some path => Some (PJwt custom to_proto from_proto from_proto_kid path)
+        | None => None
+        end
+      else Some (PTables to_proto from_proto)
+  | None => None
+  end.
 
 (* the type of a registered URL, given the schema of its key message *)
 Definition ktype_of (url : bytes) (s : schema) : option ktype :=
